@@ -592,10 +592,11 @@ def gen_weak_chord_input(rng):
 
 
 def gen_history(rng, full, style):
-    """consecutive calls in one process.  Parameters move on the cube HIST_KCP x HIST_CCP x HIST_POUT (x HIST_CONC),
-    one coordinate at a time; `star`: centre, neighbour, centre, neighbour, … (each neighbour differs from the centre in
-    exactly one of the three table parameters and is adjacent to it in time, the centre's concentration changes between
-    visits); `walk`: every step flips exactly one of the four coordinates or none."""
+    """consecutive calls in one process.  The three table parameters move on the cube HIST_KCP x HIST_CCP x HIST_POUT
+    one coordinate at a time.  `star`: centre, neighbour, centre, neighbour, …: each neighbour differs from the centre in
+    exactly ONE table parameter (the other two are shared) and is adjacent to it in time; a last, NEAR neighbour moves
+    one table parameter by 5-30 % only; the concentration changes freely between calls.  `walk`: every step changes
+    exactly one of the four parameters (to the other grid value or to a nearby off-grid value) or none."""
     flip = lambda vals, v: vals[(vals.index(v) + 1) % len(vals)]
     seq = []
     if style == 'star':
@@ -1408,7 +1409,7 @@ def run(chk):
                                                              'NC' if any(a.text == 'N.C.' for a in anns) else 'noNC',
                                                              'keychange' if len({i // C0 for i in path}) > 1 else 'onekey']))
 
-    for i in range(chk.n(60, 2000)):
+    for i in range(chk.n(60, 1700)):
         d, hist = gen_chord_case(rng, nparams, chk.thorough)
         res = run_chords(d, cache)
         o = oracle_chords(np, d, res)
@@ -1437,7 +1438,7 @@ def run(chk):
     # recording wrappers).  Every call is judged on its own: the tables handed to the Viterbi helper and the
     # likelihood of the returned path against the HMM that the parameters of THAT call define, computed independently.
     rng = chk.subrng('chords-history')
-    for h in range(chk.n(2, 24)):
+    for h in range(chk.n(2, 20)):
         calls = gen_history(rng, chk.thorough, ['star', 'walk'][h % 2])
         for k, (d, hist) in enumerate(calls):
             res = run_chords(d, None)
@@ -1512,10 +1513,13 @@ def run(chk):
                 path = mel_indices(None, result, pit)
                 sc = mel_score(path, fl, tr)
                 lines.append('melF %d %d %s %s' % (len(pit), fl.shape[0], hexarr(tr), hexarr(fl)))
-                # the rne53-on-rationals instance: small tables, and the many-pitch tables (half their entries are -inf,
-                # measured 0.3 s at 181 states x 33 frames)
-                rq = (fl.shape[0] * fl.shape[1] ** 2 <= (BIG_RNE53_BUDGET if fl.shape[1] > 128 else 30000)
-                      and not (fl == np.inf).any())
+                # the rne53-on-rationals instance: small tables, and those many-pitch tables whose transition table is
+                # sparse enough (additions with -inf cost nothing; measured 0.3 s at 181 states x 33 frames)
+                if fl.shape[1] > 128:
+                    rq = fl.shape[0] * int((tr != NINF).sum()) <= 600000      # finite additions, ~1.3 us each
+                else:
+                    rq = fl.shape[0] * fl.shape[1] ** 2 <= 30000
+                rq = rq and not (fl == np.inf).any()
                 mt.append(('vit-mel-float', d, (path, sc), 'hex', ['P%s' % ('1' if len(pit) == 1 else '2-4' if len(pit) <= 4 else '5+'),
                                                                    'allinf' if sc == NINF else 'finite', 'rne53' if rq else 'native-only']))
                 if rq:
